@@ -44,8 +44,17 @@ struct Shared {
     }
 };
 
+// the object whose modification is the outermost user code running on this thread (a modification of A may submit to B and
+// find B free, in which case B's functor runs nested inside A's)
+static thread_local std::vector<const Shared*> tl_inside;  // the objects whose modifications are running on this thread, outermost first
+struct InsideScope {
+    explicit InsideScope(const Shared* sh) { tl_inside.push_back(sh); }
+    ~InsideScope() { tl_inside.pop_back(); }
+};
+static bool inside_a_modification_of(const Shared* sh) { return std::find(tl_inside.begin(), tl_inside.end(), sh) != tl_inside.end(); }
 static int functor_body(Cell& c, uint32_t id, bool throws, int hold, Shared* sh, const std::function<void()>* nested = nullptr)
 {
+    InsideScope inside(sh);
     Win w(c, true);
     vrf::tl_vt_label = static_cast<int>(id);
     sh->exec_count[id].fetch_add(1, std::memory_order_relaxed);
@@ -108,18 +117,33 @@ static void one_round(long r, const char* mname)
     std::atomic<uint32_t> b_submitted[MAXID];
     for (auto& x : b_submitted) x.store(0);
     DG* dgbp = dgb.get();
+    DG* dgap = dg.get();
     Shared* shbp = &shb;
-    auto make_hook = [&b_next, &b_submitted, dgbp, shbp](int kind) -> std::shared_ptr<std::function<void()>> {
+    Shared* shap = &sh;
+    auto make_hook = [&b_next, &b_submitted, dgbp, dgap, shbp, shap](int kind) -> std::shared_ptr<std::function<void()>> {
         if (kind == 0 || dgbp == nullptr) return nullptr;
         std::atomic<uint32_t>* nextp = &b_next;
         std::atomic<uint32_t>* subp = b_submitted;
-        return std::make_shared<std::function<void()>>([kind, dgbp, shbp, nextp, subp] {
+        return std::make_shared<std::function<void()>>([kind, dgbp, dgap, shbp, shap, nextp, subp] {
+            // user code does not re-enter a wrapper from inside one of that wrapper's own modifications (the thread owns its lock)
+            if (inside_a_modification_of(shbp)) return;
             try {
                 if (kind == 1) {
                     uint32_t bid = nextp->fetch_add(1, std::memory_order_relaxed);
                     if (bid >= MAXID) return;
                     subp[bid].store(1, std::memory_order_relaxed);
-                    dgbp->modify_detach([bid, shbp](Cell& c) { (void)functor_body(c, bid, false, 0, shbp); });
+                    // every other modification of B in turn posts something (that changes nothing) back to A: user code that
+                    // runs inside one wrapper may submit to another one, in both directions at once
+                    // (not when a modification of A is running further out on the same thread: that thread owns A's lock)
+                    dgbp->modify_detach([bid, shbp, shap, dgap](Cell& c) {
+                        InsideScope inside(shbp);
+                        (void)functor_body(c, bid, false, 0, shbp);
+                        if (bid % 2 && !inside_a_modification_of(shap))
+                            dgap->modify_detach([](Cell& a) {
+                                Win w(a, true);
+                                a.check("first object, from inside a modification of the second");
+                            });
+                    });
                 } else {
                     auto h = dgbp->lock_shared();
                     Win w(*h, false);
